@@ -12,7 +12,21 @@ import (
 	"sort"
 )
 
-// StrListEncoder encodes string slice. Max bytes size for each string is 65536 bytes
+// MaxStrLen is the longest string (in bytes) a string list can hold: lengths are
+// stored in 16 bits.
+const MaxStrLen = 65535
+
+// ValidateStrLens returns an error if any string is too long to be encoded.
+func ValidateStrLens(sl []string) error {
+	for i, s := range sl {
+		if len(s) > MaxStrLen {
+			return fmt.Errorf("value at position %d is too long (%d > %d bytes)", i, len(s), MaxStrLen)
+		}
+	}
+	return nil
+}
+
+// StrListEncoder encodes string slice. Max bytes size for each string is 65535 bytes
 type StrListEncoder struct {
 	buf          []byte
 	reuseRecords bool
@@ -41,8 +55,8 @@ func (e *StrListEncoder) Encode(sl []string) []byte {
 	binary.BigEndian.PutUint32(e.buf, uint32(len(sl)))
 	offset := 4
 	for _, s := range sl {
-		if len(s) > 65536 {
-			panic(fmt.Errorf("cell value %q is too long (%d > 65536)", s[:40]+"...", len(s)))
+		if len(s) > MaxStrLen {
+			panic(fmt.Errorf("cell value %q is too long (%d > %d)", s[:40]+"...", len(s), MaxStrLen))
 		}
 		l := uint16(len(s))
 		binary.BigEndian.PutUint16(e.buf[offset:], l)
